@@ -27,6 +27,8 @@ use std::ops::Deref;
 use std::ops::DerefMut;
 use std::path::Path;
 use std::sync::Arc;
+use std::sync::atomic::AtomicBool;
+use std::sync::atomic::Ordering;
 use std::sync::mpsc::Receiver;
 use std::sync::mpsc::Sender;
 
@@ -34,6 +36,9 @@ pub struct Output {
     path: Arc<Path>,
     creator: FileCreator,
     config: OutputConfig,
+    /// Whether we've started replacing the file at `path`. Only used when the file is created from
+    /// the main thread. With background creation, that's the case once `set_size` has been called.
+    started_writing: AtomicBool,
 }
 
 #[derive(Clone, Copy)]
@@ -140,6 +145,37 @@ impl Output {
                 should_write_trace: args.common().write_trace,
                 use_mmap: args.common().mmap_output_file,
             },
+            started_writing: AtomicBool::new(false),
+        }
+    }
+
+    /// Called when the link failed. Removes whatever this link has put at the output path, so that
+    /// a partially written file can't be mistaken for a fresh output. GNU ld does the same. If we
+    /// hadn't yet touched the output path, then whatever was there before is left alone.
+    pub(crate) fn remove_after_failed_link(&self) {
+        let started_writing = match &self.creator {
+            FileCreator::Background {
+                sized_output_sender,
+                sized_output_recv,
+            } => {
+                if sized_output_sender.is_some() {
+                    false
+                } else {
+                    // Make sure that the background task isn't still about to create the file. If
+                    // `write` already took the file, this returns immediately.
+                    let _ = sized_output_recv.recv();
+                    true
+                }
+            }
+            FileCreator::Regular { .. } => self.started_writing.load(Ordering::Relaxed),
+        };
+
+        // As with GNU ld, only remove ordinary files. We don't for example want to delete /dev/null.
+        if started_writing
+            && std::fs::symlink_metadata(&self.path)
+                .is_ok_and(|m| m.file_type().is_file() || m.file_type().is_symlink())
+        {
+            let _ = std::fs::remove_file(&self.path);
         }
     }
 
@@ -211,6 +247,7 @@ impl Output {
                 wait_for_sized_output(sized_output_recv)?
             }
             FileCreator::Regular { file_size } => {
+                self.started_writing.store(true, Ordering::Relaxed);
                 delete_old_output(&self.path);
                 let file_size = file_size.context("set_size was never called")?;
                 self.create_file_non_lazily(file_size)?
